@@ -32,7 +32,7 @@ theorem not_run_of_not_admitted {i : Inst} {as : List Nat}
 depot 1) is feasible, but after `…3,4` the mask offers only node 0 as the way home. -/
 theorem run_of_feasible_counterexample : ¬ run_of_feasible_statement := by
   intro h
-  have := h cexHome [0, 0, 1, 3, 4, 1, 2] ⟨by decide, by decide, by decide, by decide, by decide⟩
+  have := h cexHome [0, 0, 1, 3, 4, 1, 2] ⟨by decide, by decide, by decide, by decide, by decide, by decide⟩
     (by intro d _; simp [cexHome]) (by unfold Feasible; decide)
     ⟨rfl, by intro d hd; have : d < 3 := hd; (rcases d with _ | _ | _ | d) <;> simp <;> omega⟩
   exact not_run_of_not_admitted (by decide) this
@@ -46,7 +46,7 @@ def cexCap2 : Inst :=
 capacity 1 and hides the second pickup. -/
 theorem run_of_feasible_capacity_counterexample : ¬ run_of_feasible_statement := by
   intro h
-  have := h cexCap2 [0, 0, 1, 2, 3, 4, 5] ⟨by decide, by decide, by decide, by decide, by decide⟩
+  have := h cexCap2 [0, 0, 1, 2, 3, 4, 5] ⟨by decide, by decide, by decide, by decide, by decide, by decide⟩
     (by intro d _; simp only [cexCap2]; split <;> omega) (by unfold Feasible; decide)
     ⟨rfl, by intro d hd; have : d < 2 := hd; (rcases d with _ | _ | d) <;> simp <;> omega⟩
   exact not_run_of_not_admitted (by decide) this
